@@ -18,6 +18,8 @@ CLAIMED['C05'] = dict(text="The model IS the definition the property names (walk
              technique="Coq proofs about the definitional model + verified checkers applied to implementation outputs + differential correspondence", ref="6/C05")
 CLAIMED['C02'] = dict(text="Abstract cache machine (versions, md5 snapshot, sticky stale flag, lock counter, per-view cache) with theorem C02_read_fresh: for EVERY history of edits, reads, clears, locked sections, carried caches, copies and pickle round trips, an unlocked read of a guarded TEMP_ATTR view returns the value built from the current table (invariant: an out-of-date entry is always detectable). The facts the theorem needs about the code (TEMP_ATTR, CORE_DATA, which properties are wrapped in temp_property, all 51 _clear_temp_attr(exclude=...) call sites, __getstate__ pops, copy()'s stale branch, shapes of temp_property/_clear_temp_attr/is_stale) are REGENERATED from /repo by translate/cache.py on every run and the obligations are re-discharged by vm_compute (C02_source_meets_obligations, C02_read_fresh_current_source); necessity of each obligation is shown by refutation examples. Tie of the machine's Carry assumption and of everything else: random interleavings of warming reads, navis ops and direct edits on the real navis, each followed by reads compared with a freshly constructed neuron.",
              technique="Coq invariant proof over operation histories of an abstract machine + source-to-Coq translator (Python ast) regenerating the obligations + differential correspondence", ref="6/C02")
+CLAIMED['C12'] = dict(text="Model of the pruning criteria over exact edge lengths (twigs = leaf up to the next node with >=2 children; recursion to a fixpoint; exact mode as 'keep the cable whose height above the tips is >= size'; Strahler selections incl. Python slice semantics; depth; greedy longest neurites; connector relocation). Theorems (props/C12.v): twig characterisation, removed set = nodes of qualifying twigs, kept rows untouched (subset semantics), recursive pruning terminates with no qualifying twig left (for all forests, by a decreasing-size argument), prune_at_depth membership, each selection form denotes the stated index set, exactly the unselected indices are kept, connectors move to the NEAREST surviving ancestor. longest_neurite and exact=True are specification-by-model only (partial). Tie: equality of pruned node/connector tables between navis and the model evaluated in Coq; exact-mode tips compared geometrically.",
+             technique="Coq proofs over an executable specification + exact differential correspondence", ref="6/C12")
 PENDING = {}
 props = [json.loads(l) for l in open(os.path.join(V, 'properties.jsonl'))]
 checks, na = [], []
